@@ -7,7 +7,8 @@
 #                 RestartingDeferral + TableManager through the real glue, interleaved with
 #                 insert_route calls; shard i of `nshards` takes the (first,second)-event pairs = i mod nshards
 #   part=machine  same enumeration on the bare RestartingDeferral (outputs + is_completed judged)
-#   part=rnd      random configurations / sequences up to 40 events, glue and PeerSession::process_effects modes
+#   part=rnd      random configurations / sequences up to 40 events, glue and PeerSession::process_effects modes,
+#                 plus the early-session scenarios (a session established during the deferral stays up across the release)
 _T = "event::verif::c11::run"
 CFG = dict(
     level="exploration",
@@ -17,6 +18,8 @@ CFG = dict(
     monitors=["held: no NlriChange of a deferred family reaches the registered peer channel (and insert yields no change) while a helper is pending",
               "release-iff: a family is released in the very step in which its last pending helper resolves (EOR / drop / re-established without it) or the timer fires, never earlier",
               "exactly-once: at release every held prefix is announced exactly once with its full path list; nothing is announced a second time afterwards",
+              "held/initial-dump: the real PeerSession::on_established, run at points of the histories, sends no route of a family that must be held to the new session; "
+              "a session that stays up across the release is sent every held prefix exactly once (early-session scenarios)",
               "non-GR peers never block",
               "terminates: nothing pending => Global.selection_deferral (restarting flag) cleared, later inserts announced immediately on every shard; flag not cleared while a family must be held",
               "no panic"],
@@ -34,7 +37,9 @@ CFG = dict(
                          "release-by:est-nogr": 4000, "release-by:est-without-family": 12000,
                          "release:prefix-dumped": 60000, "release:multipath-prefix-dumped": 9000,
                          "terminates:judged": 11000, "flag-held:judged": 300000,
-                         "random:session-mode": 400, "random:2-shards": 400, "initial-dump-probe:runs": 1}),
+                         "random:session-mode": 400, "random:2-shards": 400,
+                         "initial-dump:sessions": 25000, "initial-dump:released-prefix-sent": 12000,
+                         "early-session:scenarios": 6}),
     # quick: coupled depth 4 over the full alphabet up to peer renaming (all peers configured alike),
     # bare machine depth 4 over every sequence, coupled depth 3 for asymmetric configurations, random
     quick=[e2("exh4", _T, 10, 300, part="exh", depth=4, cfg="full", nshards=10, sym=1),
